@@ -237,3 +237,222 @@ Proof.
       unfold name_ok in Hn. cbn [forallb] in Hn. do 3 (apply andb_prop in Hn; destruct Hn as [_ Hn]).
       apply andb_prop in Hn. tauto.
 Qed.
+
+(** ** prolog and document *)
+Lemma body_prolog : body G_xml nt_prolog =
+  Map L_model_Prolog_from (Seq (Opt (NT nt_xml_decl)) (Seq (Many0 (NT nt_misc)) (Opt (Seq (NT nt_doctype_decl) (Many0 (NT nt_misc)))))).
+Proof. reflexivity. Qed.
+Lemma body_document : body G_xml nt_document =
+  Map L_model_Document_from (Seq (NT nt_prolog) (Seq (NT nt_element) (Many0 (NT nt_misc)))).
+Proof. reflexivity. Qed.
+
+Lemma al_prolog_none x (hs : list misc) :
+  apply_label L_model_Prolog_from (VPair (match x with Some d => VSome (VDeclXml d) | None => VNone end)
+                                         (VPair (VList (map VMisc hs)) VNone))
+  = VProlog (Prolog x hs None []).
+Proof.
+  change (apply_label L_model_Prolog_from (VPair (match x with Some d => VSome (VDeclXml d) | None => VNone end) (VPair (VList (map VMisc hs)) VNone)))
+    with (match as_opt as_decl_xml (match x with Some d => VSome (VDeclXml d) | None => VNone end),
+                as_list as_misc (VList (map VMisc hs)), as_opt as_doc_tail VNone with
+          | Some x', Some hs', Some t' =>
+            VProlog (Prolog x' hs' (match t' with Some (d, _) => Some d | None => None end) (match t' with Some (_, ms) => ms | None => [] end))
+          | _, _, _ => VBad end).
+  rewrite as_list_map by reflexivity. destruct x; reflexivity.
+Qed.
+
+Lemma al_prolog_some x (hs : list misc) dd (ts : list misc) :
+  apply_label L_model_Prolog_from (VPair (match x with Some d => VSome (VDeclXml d) | None => VNone end)
+                                         (VPair (VList (map VMisc hs)) (VSome (VPair (VDeclDoc dd) (VList (map VMisc ts))))))
+  = VProlog (Prolog x hs (Some dd) ts).
+Proof.
+  change (apply_label L_model_Prolog_from (VPair (match x with Some d => VSome (VDeclXml d) | None => VNone end)
+                                         (VPair (VList (map VMisc hs)) (VSome (VPair (VDeclDoc dd) (VList (map VMisc ts)))))))
+    with (match as_opt as_decl_xml (match x with Some d => VSome (VDeclXml d) | None => VNone end),
+                as_list as_misc (VList (map VMisc hs)),
+                as_opt as_doc_tail (VSome (VPair (VDeclDoc dd) (VList (map VMisc ts)))) with
+          | Some x', Some hs', Some t' =>
+            VProlog (Prolog x' hs' (match t' with Some (d, _) => Some d | None => None end) (match t' with Some (_, ms) => ms | None => [] end))
+          | _, _, _ => VBad end).
+  rewrite as_list_map by reflexivity. cbn [as_opt as_doc_tail]. rewrite as_list_map by reflexivity. destruct x; reflexivity.
+Qed.
+
+Lemma al_document p e (ms : list misc) :
+  apply_label L_model_Document_from (VPair (VProlog p) (VPair (VElement e) (VList (map VMisc ms)))) = VDocument (Document p e ms).
+Proof.
+  change (apply_label L_model_Document_from (VPair (VProlog p) (VPair (VElement e) (VList (map VMisc ms)))))
+    with (ret (fun m => VDocument (Document p e m)) (as_list as_misc (VList (map VMisc ms)))).
+  rewrite as_list_map by reflexivity. reflexivity.
+Qed.
+
+(** the root element (or the DOCTYPE, or the end of the input) ends a run of Misc *)
+Lemma qname_head (q : qname) : qname_ok q -> exists c t, d_qname q = c :: t /\ eval (is_name_start_char_except [58]) c = true.
+Proof.
+  destruct q as [p l|n]; cbn [qname_ok d_qname].
+  - intros [Hp _]. destruct (ncname_head p Hp) as [c [t [-> Hc]]]. cbn [app]. eauto.
+  - intros Hn. destruct (ncname_head n Hn) as [c [t [-> Hc]]]. eauto.
+Qed.
+
+Lemma element_head ents ext (i : item) : is_element i = true -> item_wf ents ext i ->
+  exists c t, d_item false i = 60 :: c :: t /\ eval (is_name_start_char_except [58]) c = true.
+Proof.
+  destruct i as [local prefix attrs children| | | | | | |]; try discriminate. intros _ [Hq _].
+  rewrite d_item_element. destruct (qname_head _ Hq) as [c [t [-> Hc]]]. cbn [app]. eauto.
+Qed.
+
+Lemma misc_stop_lt_name c (t : str) : eval (is_name_start_char_except [58]) c = true -> misc_stop (60 :: c :: t).
+Proof.
+  intros Hc. unfold misc_stop. cbn [prefix stops]. repeat split.
+  - destruct (N.eqb_spec 33 c) as [<-|]; [vm_compute in Hc; discriminate|reflexivity].
+  - destruct (N.eqb_spec 63 c) as [<-|]; [vm_compute in Hc; discriminate|reflexivity].
+Qed.
+
+Lemma fails_xml_decl_lt_name c (t : str) : eval (is_name_start_char_except [58]) c = true -> F (NT nt_xml_decl) (60 :: c :: t).
+Proof.
+  intros Hc. apply fails_xml_decl_tag. cbn [prefix].
+  destruct (N.eqb_spec 63 c) as [<-|]; [vm_compute in Hc; discriminate|reflexivity].
+Qed.
+
+Lemma fails_doctype_tag (s : str) : prefix [60;33;68;79;67;84;89;80;69] s = None -> F (NT nt_doctype_decl) s.
+Proof.
+  intros H. apply fails_nt. change (body G_xml nt_doctype_decl) with
+    (Map L_model_DeclarationDoc_from (Seq (SeqR (Seq (Tag [60;33;68;79;67;84;89;80;69]) (Chars1 ws)) (NT nt_qname))
+       (Seq (SeqL (Opt (SeqR (Chars1 ws) (NT nt_external_id))) (Chars0 ws))
+            (SeqL (Opt (SeqR (Tag [91]) (SeqL (NT nt_int_subset) (Seq (Tag [93]) (Chars0 ws))))) (Tag [62]))))).
+  apply fails_map. apply fails_seq_l. apply fails_seqr_l. apply fails_seq_l. apply fails_tag. exact H.
+Qed.
+
+(** a document as the printer sees it *)
+Record doc_parts := Parts {
+  dp_pre : list item; dp_dt : option doctype; dp_mid : list item; dp_root : item; dp_post : list item }.
+
+Definition parts_children (p : doc_parts) : list item :=
+  dp_pre p ++ match dp_dt p with Some x => ItDocType x :: dp_mid p | None => [] end ++ dp_root p :: dp_post p.
+
+(** what rung 3b (Proofs/DisplayDtd.v) has to provide for the document type declaration *)
+Definition doctype_rt (sa : option bool) (dt : doctype) : Prop :=
+  forall r, exists dd, yields (NT nt_doctype_decl) (d_doctype false dt ++ r) (VDeclDoc dd) r
+                       /\ build_doctype false sa dd = IOk dt.
+
+Definition doc_wf (d : document) : Prop :=
+  exists p, doc_children d = parts_children p
+    /\ (dp_dt p = None -> dp_mid p = [])
+    /\ Forall misc_wf (dp_pre p) /\ Forall misc_wf (dp_mid p) /\ Forall misc_wf (dp_post p)
+    /\ is_element (dp_root p) = true
+    /\ item_wf (match dp_dt p with Some x => dt_entities x | None => [] end)
+               (external_subset (doc_standalone d) (match dp_dt p with Some x => dt_system x | None => None end))
+               (dp_root p)
+    /\ match doc_version d with
+       | Some v => version_ok v /\ (doc_encoding d = [] \/ enc_ok (doc_encoding d))
+       | None => doc_encoding d = [] /\ doc_standalone d = None
+       end
+    /\ (forall x, dp_dt p = Some x -> doctype_rt (doc_standalone d) x).
+
+Lemma d_doctype_head (dt : doctype) : exists t, d_doctype false dt = [60;33;68;79;67;84;89;80;69] ++ 32 :: t.
+Proof. unfold d_doctype, s_doctype_open. norm_app. eexists. reflexivity. Qed.
+
+Lemma d_children_app a b : d_children (a ++ b) = d_children a ++ d_children b.
+Proof. apply flat_map_app. Qed.
+
+(** nothing the printer writes first is taken for an XML declaration *)
+Lemma fails_xml_decl_start ents ext (p : doc_parts) : Forall misc_wf (dp_pre p) -> is_element (dp_root p) = true ->
+  item_wf ents ext (dp_root p) -> F (NT nt_xml_decl) (d_children (parts_children p)).
+Proof.
+  intros Hpre Hel Hroot. unfold parts_children. destruct (dp_pre p) as [|i pre].
+  - cbn [app]. destruct (dp_dt p) as [dt|].
+    + cbn [app d_children flat_map d_item]. destruct (d_doctype_head dt) as [t ->]. norm_app.
+      apply fails_xml_decl_tag. reflexivity.
+    + cbn [app d_children flat_map]. destruct (element_head ents ext _ Hel Hroot) as [c [t [-> Hc]]]. norm_app.
+      apply fails_xml_decl_lt_name. exact Hc.
+  - inversion Hpre as [|i' l' Hi _]; subst. cbn [app d_children flat_map].
+    destruct i; cbn [misc_wf] in Hi; try contradiction; cbn [d_item].
+    + unfold s_comment_open. norm_app. apply fails_xml_decl_tag. reflexivity.
+    + rewrite d_pi_eq. apply fails_xml_decl_pi. exact Hi.
+Qed.
+
+Theorem document_round_trip (d : document) : doc_wf d -> from_raw (display d) = OOk ([], d).
+Proof.
+  intros [p [Hch [Hmid [Hpre [Hmidw [Hpost [Hel [Hroot [Hx Hdt]]]]]]]]].
+  set (ents := match dp_dt p with Some x => dt_entities x | None => [] end) in *.
+  set (ext := external_subset (doc_standalone d) (match dp_dt p with Some x => dt_system x | None => None end)) in *.
+  destruct (element_round_trip ents ext (dp_root p) Hel Hroot (d_children (dp_post p))) as [e [Hye Hbe]].
+  destruct (element_head ents ext _ Hel Hroot) as [c0 [t0 [Ehead Hc0]]].
+  (* the XML declaration *)
+  set (xd := match doc_version d with
+             | Some v => Some (DeclXml v (match doc_encoding d with [] => None | en => Some en end) (doc_standalone d))
+             | None => None end).
+  assert (forall rest, (doc_version d = None -> F (NT nt_xml_decl) rest) ->
+            yields (Opt (NT nt_xml_decl)) (d_xmldecl d ++ rest)
+                   (match xd with Some x => VSome (VDeclXml x) | None => VNone end) rest) as Hxml.
+  { intros rest Hf. unfold d_xmldecl, xd. destruct (doc_version d) as [v|].
+    - destruct Hx as [Hv He]. apply yields_opt_some.
+      pose proof (xml_decl_rt v (doc_encoding d) (doc_standalone d) rest Hv He) as H.
+      unfold d_enc_part, d_sa_part in H. rewrite <- !app_assoc. destruct (doc_encoding d); exact H.
+    - cbn [app]. apply yields_opt_none. apply Hf. reflexivity. }
+  (* the tail: root element and epilog *)
+  set (tail := d_item false (dp_root p) ++ d_children (dp_post p)).
+  assert (misc_stop tail) as Hstop by (unfold tail; rewrite Ehead; cbn [app]; apply misc_stop_lt_name; exact Hc0).
+  assert (yields (Seq (NT nt_element) (Many0 (NT nt_misc))) tail
+                 (VPair (VElement e) (VList (map VMisc (map un_misc (dp_post p))))) []) as Htail.
+  { unfold tail. eapply yields_seq; [exact Hye|]. apply yields_many0.
+    pose proof (miscs_many [] (conj eq_refl (conj eq_refl I)) (dp_post p) Hpost) as H. rewrite app_nil_r in H. exact H. }
+  (* parse *)
+  assert (exists pd, yields (NT nt_document) (display d) (VDocument pd) [] /\ build_document pd = IOk d) as [pd [Hyd Hbd]].
+  { unfold display, display_gen. rewrite Hch. fold (d_children (parts_children p)).
+    destruct (dp_dt p) as [dt|] eqn:Edt.
+    - (* with a document type declaration *)
+      destruct (Hdt dt eq_refl (d_children (dp_mid p) ++ tail)) as [dd [Hyd Hbdd]].
+      exists (Document (Prolog xd (map un_misc (dp_pre p)) (Some dd) (map un_misc (dp_mid p))) e (map un_misc (dp_post p))).
+      split.
+      + apply yields_nt. rewrite body_document. eapply yields_map'; [apply al_document|].
+        unfold parts_children. rewrite Edt. rewrite !d_children_app. cbn [d_children flat_map d_item]. fold (d_children (dp_mid p)).
+        fold (d_children (dp_post p)). norm_app.
+        replace (d_children (dp_mid p) ++ d_item false (dp_root p) ++ d_children (dp_post p)) with (d_children (dp_mid p) ++ tail) by reflexivity.
+        eapply yields_seq; [|exact Htail].
+        apply yields_nt. rewrite body_prolog. eapply yields_map'; [apply al_prolog_some|].
+        eapply yields_seq.
+        * apply Hxml. intros Hv. pose proof (fails_xml_decl_start ents ext p Hpre Hel Hroot) as Hf.
+          unfold parts_children in Hf. rewrite Edt in Hf. rewrite !d_children_app in Hf. cbn [d_children flat_map d_item] in Hf.
+          fold (d_children (dp_mid p)) in Hf. fold (d_children (dp_post p)) in Hf. norm_app. rewrite <- !app_assoc in Hf. exact Hf.
+        * eapply yields_seq.
+          -- apply yields_many0. apply miscs_many; [|exact Hpre].
+             destruct (d_doctype_head dt) as [t ->]. norm_app. repeat split.
+          -- apply yields_opt_some. eapply yields_seq; [exact Hyd|]. apply yields_many0. apply miscs_many; assumption.
+      + unfold build_document, build_document_gen. cbn [d_prolog pr_declaration_doc pr_declaration_xml pr_heads pr_tails d_element d_miscs].
+        assert ((match xd with Some x => dx_standalone x | None => None end) = doc_standalone d) as Hsa.
+        { unfold xd. destruct (doc_version d); [reflexivity|]. destruct Hx as [_ ->]. reflexivity. }
+        rewrite Hsa, Hbdd. cbn [ibind]. fold ents. fold ext. rewrite Hbe. cbn [ibind].
+        rewrite !misc_items_un by assumption. destruct d as [ch en sa ver]. cbn [doc_children doc_encoding doc_standalone doc_version] in *.
+        unfold xd. rewrite Hch. unfold parts_children. rewrite Edt. cbn [dp_pre].
+        destruct ver as [v|]; cbn [dx_encoding dx_standalone dx_version].
+        -- destruct en; rewrite <- ?app_assoc; reflexivity.
+        -- destruct Hx as [-> ->]. rewrite <- ?app_assoc. reflexivity.
+    - (* without *)
+      specialize (Hmid eq_refl).
+      exists (Document (Prolog xd (map un_misc (dp_pre p)) None []) e (map un_misc (dp_post p))).
+      split.
+      + apply yields_nt. rewrite body_document. eapply yields_map'; [apply al_document|].
+        unfold parts_children. rewrite Edt. cbn [app]. rewrite d_children_app. cbn [d_children flat_map].
+        fold (d_children (dp_post p)). norm_app. fold tail.
+        eapply yields_seq; [|exact Htail].
+        apply yields_nt. rewrite body_prolog. eapply yields_map'; [apply al_prolog_none|].
+        eapply yields_seq.
+        * apply Hxml. intros Hv. pose proof (fails_xml_decl_start ents ext p Hpre Hel Hroot) as Hf.
+          unfold parts_children in Hf. rewrite Edt in Hf. cbn [app] in Hf. rewrite d_children_app in Hf. cbn [d_children flat_map] in Hf.
+          fold (d_children (dp_post p)) in Hf. exact Hf.
+        * eapply yields_seq.
+          -- apply yields_many0. apply miscs_many; assumption.
+          -- apply yields_opt_none. apply fails_seq_l. apply fails_doctype_tag. unfold tail. rewrite Ehead. cbn [app prefix].
+             destruct (N.eqb_spec 33 c0) as [<-|]; [vm_compute in Hc0; discriminate|reflexivity].
+      + unfold build_document, build_document_gen. cbn [d_prolog pr_declaration_doc pr_declaration_xml pr_heads pr_tails d_element d_miscs ibind].
+        assert ((match xd with Some x => dx_standalone x | None => None end) = doc_standalone d) as Hsa.
+        { unfold xd. destruct (doc_version d); [reflexivity|]. destruct Hx as [_ ->]. reflexivity. }
+        rewrite Hsa. fold ents. fold ext. rewrite Hbe. cbn [ibind].
+        rewrite !misc_items_un by assumption. destruct d as [ch en sa ver]. cbn [doc_children doc_encoding doc_standalone doc_version] in *.
+        unfold xd. rewrite Hch. unfold parts_children. rewrite Edt. cbn [misc_items flat_map app].
+        destruct ver as [v|]; cbn [dx_encoding dx_standalone dx_version].
+        -- destruct en; reflexivity.
+        -- destruct Hx as [-> ->]. reflexivity. }
+  unfold from_raw, from_raw_gen, parse_document.
+  rewrite (parse_with_yields nt_document _ (display d) (VDocument pd) pd [] Hyd eq_refl).
+  unfold build_document in Hbd. rewrite Hbd. reflexivity.
+Qed.
